@@ -69,11 +69,13 @@ def install(eng, rec):
         s_ = D(st, a[0]); pre = D(st, a[1]).s
         if isinstance(s_, SymStr) and pre == 'deg(':
             return one(st, Some(SymStr('x)', s_.value)) if s_.kind == 'deg(x)' else NONE())
+        if isinstance(s_, NumTok): return one(st, NONE())      # a string that spells a number does not start with `deg(`
         raise Inconclusive('strip_prefix on an unshaped string')
     M(r'core::str::<impl str>::strip_prefix$', strip_prefix)
     def strip_suffix(e, st, fr, f, a, m):
         s_ = D(st, a[0]); suf = D(st, a[1]).s
         if isinstance(s_, SymStr) and suf == ')': return one(st, Some(SymStr('x', s_.value)) if s_.kind == 'x)' else NONE())
+        if isinstance(s_, NumTok): return one(st, NONE())      # ... nor end with `)`
         raise Inconclusive('strip_suffix on an unshaped string')
     M(r'core::str::<impl str>::strip_suffix$', strip_suffix)
     M(r'core::str::<impl str>::trim$', lambda e, st, fr, f, a, m: one(st, D(st, a[0])))
